@@ -3,6 +3,7 @@ package checks
 import (
 	"bytes"
 	"fmt"
+	"math/big"
 	"math/rand"
 	"runtime"
 
@@ -208,7 +209,33 @@ func c01one(c *mon.Ctx, env *Env, s *statement, w, gmp int, rng *rand.Rand, case
 			}
 			c.Count("verifier_commitments_with_related_z", 1)
 		}
-		ok3, err3, vch3 := v.verify(env, &pr2)
+		snapCs := make([]banderwagon.Element, len(v.Cs))
+		for i := range snapCs {
+			snapCs[i] = *v.Cs[i]
+		}
+		if caseNo%5 == 1 && len(v.Cs) <= 40 && c01roBudget > 0 {
+			// verification is a read-only use of the commitments: here they live on read-only memory pages
+			c01roBudget -= len(v.Cs)
+			for i := range v.Cs {
+				if ro := roElem(v.Cs[i]); ro != nil {
+					v.Cs[i] = ro
+				}
+			}
+			c.Count("verifications_with_commitments_on_read_only_pages", 1)
+		}
+		var ok3 bool
+		var err3 error
+		var vch3 *big.Int
+		if faulted, msg := callRO(func() { ok3, err3, vch3 = v.verify(env, &pr2) }); faulted {
+			c.Fail("commitment-written-by-verifier", "CheckMultiProof wrote to a commitment (the commitments were on read-only pages) or panicked: "+msg, det)
+			return
+		}
+		for i := range snapCs {
+			if *v.Cs[i] != snapCs[i] {
+				c.Fail("commitment-changed-by-verifier", fmt.Sprintf("CheckMultiProof changed the caller's commitment %d (not bitwise what it was)", i), det)
+				break
+			}
+		}
 		if !ok3 || err3 != nil {
 			c.Fail("honest-proof-rejected/verifier-own-objects", fmt.Sprintf("the honest proof is rejected (ok=%v err=%v) when the verifier uses its own commitment objects in mixed representations (%s)", ok3, err3, cls), det)
 		} else if vch3.Cmp(pch) != 0 {
@@ -246,6 +273,7 @@ func c01one(c *mon.Ctx, env *Env, s *statement, w, gmp int, rng *rand.Rand, case
 }
 
 var c01kept = Retainer{Cap: 12}
+var c01roBudget = 300
 
 // c01poison calls the verifier with malformed proofs / statements derived from an honest one. Every call must come back
 // (a panic is contained and not judged here - C02 judges the verifier's decisions); what matters is the next honest call.
